@@ -105,6 +105,31 @@ def h_mapping(h):
         h.check(all(a is b for a, b in zip(x, xs)), "argument-not-modified")
 
 
+INT_VALUES = {"alpha": 2, "beta": 2, "gamma": 1, "mu": 1, "sigma": 2, "delta": 3, "m": 2, "c": 3, "lambda_": 2,
+              "kappa": 2, "mu_norm": 3, "sigma_norm": 2, "loc": 1, "scale": 2, "a": 2}
+
+
+def h_mapping_int(h):
+    """explicit parameters given as Python ints (lambda_=2, ...): same result as an instance constructed with them"""
+    fam = FAMILIES[h.cfg["family"]]
+    method = h.cfg["method"]
+    S = tuple(p for p in h.cfg["explicit"].split("+") if p)
+    inst = declare_params(h, fam, "i_")
+    expl = {p: INT_VALUES[p] for p in S}
+    x, xs = _x(h, h.cfg["kind"], method)
+    if method != "icdf":
+        for v in xs:        # inside every family's support for these integer parameters
+            h.assume(v >= 1.5)
+    d = fam.make(**inst)
+    theta = dict(inst)
+    theta.update(expl)
+    got = getattr(d, method)(x, **expl)
+    h.reach()
+    h.close(got, expected(h, fam, method, x, theta), "integer-typed-explicit-parameters")
+    d2 = fam.make(**theta)
+    h.close(getattr(d2, method)(x), got, "explicit-equals-constructed")
+
+
 def h_normfit_partial(h):
     """LogNormalNormFit: passing only one of (mu_norm, sigma_norm) is rejected, never half-applied"""
     fam = FAMILIES["LogNormalNormFit"]
@@ -155,5 +180,14 @@ def obligations(tier):
                         cfg = {"family": fname, "method": method, "explicit": "+".join(S), "kind": kind,
                                "passing": passing}
                         yield ("mapping", h_mapping, cfg, {})
+    for fname, fam in FAMILIES.items():
+        for method in METHODS:
+            sets = [(p,) for p in fam.params] + [tuple(fam.params)]
+            if fname == "LogNormalNormFit":
+                sets = [tuple(fam.params)]
+            for S in sets:
+                for kind in (("array",) if tier == "quick" else ("scalar", "array")):
+                    yield ("mapping_int", h_mapping_int,
+                           {"family": fname, "method": method, "explicit": "+".join(S), "kind": kind}, {})
     for via in ("instance", "explicit"):
         yield ("normfit_moments", h_normfit_moments, {"via": via}, {})
